@@ -11,6 +11,7 @@
 //
 //	open net maxFile cacheMax never|always writeRow0
 //	tx point|none skip torn nBlocks (hash data)* nKeys (key value)*      -> ok F O | crashed reopen ok F O | crashed reopen err
+//	armreopen point skip   (the reopen after the next crash dies at this point inside reconcileDB, then reopens again)
 //	flush point|none skip | crash | reopen | knob cacheMax never|always | read nHashes h* nKeys k* | files | stats
 //
 // a value `del` in a tx line deletes the key.
@@ -38,6 +39,7 @@ import (
 )
 
 type state struct {
+	reArm    []string // crash point (name, skip) armed for the reopen that follows the next crash
 	dir      string
 	db       database.DB
 	net      uint32
@@ -134,13 +136,36 @@ func dies(point string, skip, torn int, fn func() error) (crashed bool, err erro
 func reopenAfterCrash() string {
 	ffldb.VerifAbandon(st.db)
 	st.db = nil
+	out := "crashed"
+	if st.reArm != nil {
+		// the process dies again, inside reconcileDB / handleRollback of this very reopen
+		arm := st.reArm
+		st.reArm = nil
+		crashed, _ := dies(arm[0], atoi(arm[1]), 0, func() error {
+			db, err := database.Open("ffldb", st.dir, wire.BitcoinNet(st.net))
+			if err == nil {
+				st.db = db
+			}
+			return err
+		})
+		if crashed {
+			ffldb.VerifAbandonOpening()
+			st.db = nil
+			out += " reopen-crashed"
+		} else if st.db != nil {
+			knobs()
+			return out + " reopen ok " + cursor()
+		} else {
+			return out + " reopen err"
+		}
+	}
 	db, err := database.Open("ffldb", st.dir, wire.BitcoinNet(st.net))
 	if err != nil {
-		return "crashed reopen err"
+		return out + " reopen err"
 	}
 	st.db = db
 	knobs()
-	return "crashed reopen ok " + cursor()
+	return out + " reopen ok " + cursor()
 }
 
 func exec(t []string) string {
@@ -231,6 +256,9 @@ func exec(t []string) string {
 		return "ok"
 	case "crash":
 		return reopenAfterCrash()
+	case "armreopen":
+		st.reArm = []string{t[1], t[2]}
+		return "ok"
 	case "knob": // knob cacheMax never|always : change the cache limits of the open database
 		st.cacheMax, st.always = uint64(atoi(t[1])), t[2] == "always"
 		knobs()
@@ -397,7 +425,7 @@ func oracle(t []string, out string) *hx.Violation {
 	if out == "panic" {
 		return viol("ffldb-panic", "database operation panicked: "+hx.LastPanic())
 	}
-	if strings.HasPrefix(out, "crashed reopen err") || out == "err" {
+	if strings.HasSuffix(out, "reopen err") || out == "err" {
 		return viol("reopen-failed", "the database does not open after the crash: "+out)
 	}
 	switch t[0] {
@@ -536,6 +564,9 @@ func genHistory(g *hx.Gen) {
 				} else {
 					kparts = append(kparts, keys[r.Intn(len(keys))], fmt.Sprintf("%04x%s", seq, hx.Hex(r.Bytes(2))))
 				}
+			}
+			if point != "none" && r.Chance(35) {
+				g.Emit("armreopen %s %d", []string{"rollback.afterDelete", "rollback.beforeTruncate", "rollback.afterTruncate"}[r.Intn(3)], r.Intn(2))
 			}
 			g.Emit("tx %s %d %d %d %s %d %s", point, skip, torn, nb, strings.Join(parts, " "), nk, strings.Join(kparts, " "))
 		case x < 80:
